@@ -260,6 +260,9 @@ def run_program(ctx, exe, flavour, lines, env, tag):
     tmpd = os.path.join(core.BUILD, "c15tmp")
     os.makedirs(tmpd, exist_ok=True)
     e["C15_TMP"] = tmpd
+    e["C15_EVENTS"] = "1"
+    if flavour == "simd":
+        e["C15_ISOLATE"] = "1"
     if flavour == "simd" and WATCH.get("file"):
         e["C15_WATCH"] = WATCH["file"]
         e["C15_WATCH_POLL"] = "1"
@@ -270,6 +273,15 @@ def run_program(ctx, exe, flavour, lines, env, tag):
     sig, blk = parse_tsan(err)
     asig, awhat = parse_asan(err) if flavour == "asan" else (None, None)
     crashed = (rc != 0 or "DONE" not in text)
+    mi = re.search(r"ISOLATION tid=(\d+) op=(\d+) name=(\S+) (.*)", text)
+    if mi:
+        own = [x for x in lines if x.split()[0] == mi.group(1)]
+        ctx.violation("an API call touched heap memory of ANOTHER instance (heap isolation: every instance's allocations live in its own "
+                      "arena, the other arenas are PROT_NONE during the call): thread %s operation #%s `%s` %s; operation line: %s"
+                      % (mi.group(1), mi.group(2), mi.group(3), mi.group(4), own[int(mi.group(2))] if int(mi.group(2)) < len(own) else "?"),
+                      dict(replay, line=mi.group(0)), signature="seq-memory:isolation:" + mi.group(3))
+        res["ok"] = False
+        return res
     if asig:
         ctx.violation("memory-safety defect in a single thread's own operation list (schedule-independent): " + awhat,
                       dict(replay, asan_report=err[-2500:]), signature=asig)
@@ -295,7 +307,17 @@ def run_program(ctx, exe, flavour, lines, env, tag):
                       dict(replay, stderr=err[-2000:]), signature="crash:%s:rc%d" % (flavour, rc))
         res["ok"] = False
         return res
+    correspond(ctx, text, replay, flavour)
     for l in text.split("\n"):
+        mi2 = re.match(r"T(\d+) ISO (OK|DIFF)", l)
+        if mi2:
+            if mi2.group(2) == "OK":
+                ctx.count("isolated-" + tag, 1, None)
+            else:
+                ctx.violation("a thread's operation list gives a different log when every instance's heap is isolated from the others: " + l,
+                              dict(replay, line=l), signature="seq-memory:isolation-diff")
+                res["ok"] = False
+            continue
         mw = re.match(r"WATCH (\S+) (.*)", l)
         if mw:
             ctx.violation("process-wide static-storage object `%s` of the library (inventory: never written) changed its value while %d threads "
@@ -322,6 +344,53 @@ def run_program(ctx, exe, flavour, lines, env, tag):
 
 
 WATCH = {}
+DRIVER = {}
+CORR = {"traces": 0, "queries": 0, "events": 0, "nontrivial_queries": 0}
+
+
+def correspond(ctx, text, replay, flavour):
+    """model-vs-implementation: the harness logs, for the concurrent phase, every error-state event with a global
+    sequence number (N new instance, C call completed, F call failed with message, T thread-local string set,
+    G/Q queries with the string returned).  The extracted thread-model replay (ErrState.lreplay) runs the merged
+    sequence and must predict the string every query returned."""
+    evs = []
+    for l in text.split("\n"):
+        if l.startswith("EV "):
+            f = l.split(" ", 5)
+            if len(f) >= 5:
+                evs.append((int(f[1]), int(f[2]), f[3], int(f[4]), f[5] if len(f) > 5 else ""))
+    if not evs or not DRIVER.get("exe"):
+        return
+    evs.sort()
+    ids = {"No error": 0}
+    items, observed, trivial = [], [], []
+    last_fail = {}
+    for seq, tid, kind, H, msg in evs:
+        m = ids.setdefault(msg, len(ids)) if kind in "FTGQ" else 0
+        inst = tid * 4 + max(H, 0)
+        items.append("%d %s %d %d" % (tid, kind, inst, m))
+        if kind in "GQ":
+            observed.append((m, tid, kind, H, msg, seq))
+            trivial.append(last_fail.get(tid) == (inst if kind == "G" else -1))
+        last_fail[tid] = inst if kind == "F" else (-1 if kind == "T" else None)
+    rc, out, err = sh2([DRIVER["exe"]], input=("|".join(items) + "\n").encode(), timeout=600)
+    pred = out.decode().split()
+    CORR["traces"] += 1
+    CORR["events"] += len(items)
+    if rc != 0 or len(pred) != len(observed):
+        ctx.broken_tie("model-driver", "extracted replay failed: rc=%d, %d predictions for %d queries %s" % (rc, len(pred), len(observed), err[-200:]))
+        return
+    rev = {v: k for k, v in ids.items()}
+    for p, o, tr in zip(pred, observed, trivial):
+        CORR["queries"] += 1
+        CORR["nontrivial_queries"] += 0 if tr else 1
+        if int(p) != o[0]:
+            what = ("error-state model and implementation disagree: thread %d %s on instance slot %d (event %d) returned \"%s\", the model "
+                    "(message of the instance's own last failure, else the thread's last message) predicts \"%s\"" %
+                    (o[1], "tj3GetErrorStr(handle)" if o[2] == "G" else "tj3GetErrorStr(NULL)", o[3], o[5], o[4], rev.get(int(p), "?")))
+            # a query that does not return the instance's / thread's own last message IS the property clause: concrete violation
+            ctx.violation(what, dict(replay, events=items[:4000]), signature="errstr-model:" + flavour)
+            return
 
 
 def make_watch_list(ctx, exe):
@@ -521,7 +590,9 @@ def run(ctx):
         binary_crosscheck(ctx, lib, ents)
 
     exe_t = ctx.cc("c15", ["c15.c"], "tsan")
-    exe_s = ctx.cc("c15np", ["c15.c"], "simd", extra="-no-pie")
+    exe_s = ctx.cc("c15np", ["c15.c"], "simd",
+                   extra="-no-pie -DC15_WRAP -Wl,--wrap=malloc,--wrap=free,--wrap=calloc,--wrap=realloc")
+    DRIVER["exe"] = ctx.model_driver()
     make_watch_list(ctx, exe_s)
 
     if ctx.replay:
@@ -559,7 +630,8 @@ def run(ctx):
                        "with per-operation marker bytes, truncated streams, invalid arguments, error queries, instance-less helpers, legacy 2.x "
                        "calls with flags=0, destroy/re-create) on their own instances, under 5 SIMD environments; one evaluation = one thread's "
                        "list whose concurrent log equalled its solo log; distinct = distinct log hashes")
-    ctx.cov["traces_validated_against_impl"] = 0
+    ctx.cov["traces_validated_against_impl"] = CORR["traces"]
+    ctx.cov["correspondence"] = dict(CORR)
     ctx.cov["op_distribution"] = dict(sorted(OPDIST.items()))
     ctx.assume += [
         "the noninterference theorem is about the footprint model; that the C text's dynamic footprint is what the generated inventory says "
